@@ -78,15 +78,29 @@ impl Sim {
     }
 }
 
-pub const ROUTES: [&str; 13] = [
+pub const ROUTES: [&str; 15] = [
     "iter", "backward", "hops", "indexed_fwd", "indexed_back", "nodes_fwd", "nodes_back", "nodes_iter",
-    "nodes_indexed", "tokens_fwd", "tokens_back", "preorder", "queries",
+    "nodes_indexed", "tokens_fwd", "tokens_back", "preorder", "queries", "iter_nth", "nodes_nth",
 ];
 
 /// visit the sub-tree of `x` using only the operations of one route
 pub fn route(sim: &mut Sim, x: usize, r: &str, out: &mut Out) {
     let n = sim.arena.nodes[x].children.len();
     match r {
+        // children first reached by `nth` on a fresh iterator, from the back (nothing in between is looked at first)
+        "iter_nth" | "nodes_nth" => {
+            let elems = r == "iter_nth";
+            let kids = sim.arena.kids(x, elems);
+            for i in (0..kids.len()).rev() {
+                out.lines.push(format!("chiter e{} {} nth{}", sim.eid(x), if elems { "elems" } else { "nodes" }, i));
+                sim.reg(kids[i], out);
+            }
+            for k in kids {
+                if !sim.arena.is_tok(k) {
+                    route(sim, k, r, out);
+                }
+            }
+        }
         "iter" => {
             if let Nav2::List(v) = sim.nav(x, &["children_with_tokens"], out) {
                 for c in v {
@@ -320,6 +334,13 @@ pub fn gen_red(seed: u64, tier: &str) -> Vec<String> {
                     for k in kids.iter().take(2) {
                         sim.reg(*k, &mut out);
                     }
+                    // `nth` mixed with size reports: skip one, take one, report, run past the end
+                    out.lines.push(format!("chiter e{} {} nth1 len size_hint nth0 len nth7 len count", sim.eid(x), kind));
+                    for i in [1usize, 2] {
+                        if let Some(k) = kids.get(i) {
+                            sim.reg(*k, &mut out);
+                        }
+                    }
                 }
             }
         }
@@ -366,17 +387,29 @@ pub fn gen_red(seed: u64, tier: &str) -> Vec<String> {
                         let mut ops = vec![];
                         let kids = sim.arena.kids(x, kind == "elems");
                         let mut taken = 0;
+                        let mut shown: Vec<usize> = vec![];
                         for _ in 0..(1 + rng.below(6)) {
-                            let op = *rng.pick(&["next", "next", "len", "size_hint"]);
-                            if op == "next" {
-                                taken += 1;
+                            let op = *rng.pick(&["next", "next", "len", "size_hint", "nth1", "nth2"]);
+                            let skip = match op {
+                                "next" => Some(0),
+                                "nth1" => Some(1),
+                                "nth2" => Some(2),
+                                _ => None,
+                            };
+                            if let Some(sk) = skip {
+                                if let Some(k) = kids.get(taken + sk) {
+                                    shown.push(*k);
+                                    taken += sk + 1;
+                                } else {
+                                    taken = kids.len();
+                                }
                             }
                             ops.push(op);
                         }
                         ops.push("count");
                         out.lines.push(format!("chiter e{} {} {}", sim.eid(x), kind, ops.join(" ")));
-                        for k in kids.iter().take(taken) {
-                            sim.reg(*k, &mut out);
+                        for k in shown {
+                            sim.reg(k, &mut out);
                         }
                     }
                     _ => {
@@ -415,8 +448,13 @@ pub fn gen_queries(seed: u64, tier: &str) -> Vec<String> {
     for (ti, t) in small_trees(max, &toks, &[0]).iter().enumerate() {
         start_case(&mut out, &mut case, t, &mut rng, "user");
         out.lines.push(format!("api {}", if ti % 2 == 0 { "plain" } else { "resolved" }));
-        // queries first (fresh tree: the queries materialise what they need), from every node
+        // queries first (fresh tree: the queries materialise what they need), from every node; every third tree has a
+        // history first: the elements the queries pass over were created by some other route (backwards, by tokens, ...)
         let mut sim = Sim::new(t, "g0", &mut out);
+        if ti % 3 == 1 {
+            let r = ["backward", "tokens_back", "nodes_back", "indexed_back", "hops", "iter_nth"][(ti / 3) % 6];
+            route(&mut sim, 0, r, &mut out);
+        }
         route(&mut sim, 0, "queries", &mut out);
         sim.nav(0, &["descendants"], &mut out);
         for x in sim.known() {
@@ -437,6 +475,9 @@ pub fn gen_queries(seed: u64, tier: &str) -> Vec<String> {
         let mut sim = Sim::new(&t, "g0", &mut out);
         if i % 2 == 0 {
             sim.nav(0, &["descendants"], &mut out);
+        } else if i % 4 == 1 {
+            let r = *rng.pick(&["backward", "tokens_back", "nodes_back", "indexed_back", "tokens_fwd"]);
+            route(&mut sim, 0, r, &mut out);
         }
         for _ in 0..60 {
             let known: Vec<usize> = sim.known().into_iter().filter(|x| !sim.arena.is_tok(*x)).collect();
